@@ -86,6 +86,33 @@ def build_case(case):
                                                     pt.Assert(w.load() == pt.Int(7000 + i)))))
             body += [pt.Assert(v.index() == pt.Int(req[i])) for i, v in enumerate(vs) if i in req]
             return pt.Seq(*body, pt.Int(1)), 2 * n
+        if placement == "dyn_byref":
+            # a DynamicScratchVar aimed at one of the variables goes BY REFERENCE into a subroutine (directly and
+            # forwarded once more): the callee's write lands in the variable aimed at, the alias still observes the
+            # same slot afterwards, the neighbours keep their values
+            vs = [mk(i) for i in range(n)]
+            d = pt.DynamicScratchVar(pt.TealType.uint64)
+
+            def bump(v):
+                return v.store(v.load() + pt.Int(7))
+            bump.__annotations__ = {"v": pt.ScratchVar}
+            bump_s = pt.Subroutine(pt.TealType.none)(bump)
+
+            def forward(v):
+                return pt.Seq(bump_s(v), v.store(v.load() + pt.Int(1)))
+            forward.__annotations__ = {"v": pt.ScratchVar}
+            forward_s = pt.Subroutine(pt.TealType.none)(forward)
+            body = [v.store(M(i)) for i, v in enumerate(vs)]
+            for i in sorted(set([0, n // 2, n - 1])):
+                body += [d.set_index(vs[i]), bump_s(d), pt.Assert(vs[i].load() == M(i) + pt.Int(7)),
+                         pt.Assert(d.index() == vs[i].index()), pt.Assert(d.load() == M(i) + pt.Int(7)),
+                         forward_s(d), pt.Assert(vs[i].load() == M(i) + pt.Int(15)),
+                         pt.Assert(d.index() == vs[i].index()),
+                         forward_s(vs[i]), pt.Assert(d.load() == M(i) + pt.Int(23)), vs[i].store(M(i))]
+            body += checks(vs, range(n))
+            # cells: the n variables, the alias, and one cell per by-reference parameter (it holds the slot id in
+            # every calling convention)
+            return pt.Seq(*body, pt.Int(1)), n + 3
         if placement == "main_branch":
             # everything happens in a block that is NOT the routine's entry block, and every cell is read back
             # right after it was written (adjacent store/load: the shape the slot optimiser looks for)
@@ -248,7 +275,7 @@ def check_case(case, out):
             cnt["executions"] = cnt.get("executions", 0) + 1
             if res.verdict != "APPROVE":
                 why = "program with %d cells does not approve: %s %s at line %s" % (cells, res.verdict, res.why, res.line)
-            elif case["kind"] in ("scratchvar", "dyn") and case["placement"] in ("main", "main_branch", "twin_blocks") and any(
+            elif case["kind"] in ("scratchvar", "dyn") and case["placement"] in ("main", "main_branch", "twin_blocks", "dyn_byref") and any(
                     res.scratch[sid] != 100000 + i for i, sid in req_pattern(case["req"], case["n"]).items()):
                 # "an explicitly requested slot id is the slot actually used"
                 bad_ = [(i, sid, res.scratch[sid]) for i, sid in req_pattern(case["req"], case["n"]).items() if res.scratch[sid] != 100000 + i]
@@ -290,9 +317,11 @@ def run(tier):
     items = []
     for n in ns:
         for req in ("none", "zero", "top", "both", "low_block", "mid_block", "high_block", "pairs", "interleaved", "half", "dup"):
-            for placement in ("main", "split1", "split2", "shared"):
+            for placement in ("main", "split1", "split2", "shared", "dyn_byref"):
                 for kind in ("scratchvar", "dyn"):
-                    if kind == "dyn" and placement != "main":
+                    if kind == "dyn" and placement not in ("main", "dyn_byref"):
+                        continue
+                    if placement == "dyn_byref" and (kind != "dyn" or n > 8 and req not in ("none", "top")):
                         continue
                     if placement != "main" and n < 3:
                         continue  # nothing to split
